@@ -172,6 +172,9 @@ func (d *Drep) UnmarshalCBOR(data []byte) error {
 		d.Credential = tmpData.Credential[:]
 	case DrepTypeAbstain, DrepTypeNoConfidence:
 		d.Type = drepType
+		// these variants carry no credential; do not keep one from an
+		// earlier decode into this receiver
+		d.Credential = nil
 	default:
 		return fmt.Errorf("unknown drep type: %d", drepType)
 	}
@@ -502,6 +505,12 @@ func (p *PoolRelay) UnmarshalCBOR(data []byte) error {
 		return err
 	}
 	p.Type = tmpId
+	// Reset the variant fields so that decoding into a reused PoolRelay
+	// cannot keep values of a previously decoded variant
+	p.Port = nil
+	p.Ipv4 = nil
+	p.Ipv6 = nil
+	p.Hostname = nil
 	switch tmpId {
 	case PoolRelayTypeSingleHostAddress:
 		var tmpData struct {
